@@ -416,11 +416,12 @@ def _spaces(tier):
         sp.append(Space("pairs: all 1100x1100 ordered unit-system pairs x {+, *} (scalar quantities; + on dimension "
                         "(1,-2,3), * on (1,-2,3) x (2,1,-1))", [Block([ALL, ALL, ["add", "mul"]], b_pair)]))
     else:
-        sp.append(Space("pairs: 36x36 unit-system pairs + default<->each of the 1100, x {+, *} (scalar quantities; "
-                        "+ on dimension (1,-2,3), * on (1,-2,3) x (2,1,-1))",
+        REST = [x for x in ALL if x not in S36]      # 1064
+        sp.append(Space("pairs: 36x36 unit-system pairs + default<->each of the other 1064 systems, x {+, *} "
+                        "(scalar quantities; + on dimension (1,-2,3), * on (1,-2,3) x (2,1,-1))",
                         [Block([S36, S36, ["add", "mul"]], b_pair),
-                         Block([[si.DEFAULT], ALL, ["add", "mul"]], b_pair),
-                         Block([ALL, [si.DEFAULT], ["add", "mul"]], b_pair)]))
+                         Block([[si.DEFAULT], REST, ["add", "mul"]], b_pair),
+                         Block([REST, [si.DEFAULT], ["add", "mul"]], b_pair)]))
 
     # (b1) systems x cube
     def b_cube(a, b, dim, opk):
@@ -479,13 +480,27 @@ def _spaces(tier):
     SYSP = [(si.DEFAULT, si.DEFAULT), (si.MIXED[0], si.MIXED[3])]
     PAIRS = [(d1, d2) for d1 in CUBE for d2 in CUBE if d1 != d2]
 
-    def b_mis(dd, opk, ss):
+    def b_mis(dd, opk, ss, var):
         op, kL, kR = opk
         L, R = indep_pair(kL, kR, ss[0], ss[1], dd[0], dd[1], 0, 0)
+        if var:
+            # the tempting coincidences: the two stored numbers are equal (var 1) / the two SI numbers are equal
+            # (var 2; if that is the same case as var 1, equal and opposite stored numbers instead)
+            lv = [L["v"]] if kL == "uv" else L["v"]
+            same = [lv[j] if len(lv) > 1 else lv[0] for j in range(NLEN[kR])]
+            if var == 1:
+                rv = same
+            else:
+                f = _scale(tuple(ss[0]), tuple(dd[0])) / _scale(tuple(ss[1]), tuple(dd[1]))
+                rv = [si.to_float(F(x) * f) for x in same]
+                if rv == same:
+                    rv = [-x for x in same]
+            R = _q(kR, rv, ss[1], dd[1])
         return {"sub": "mismatch", "expr": {"op": op, "args": [L, R]}}
     sp.append(Space("mismatch: all 702 ordered pairs of different dimensions of the cube x {+ - % on 4 kind "
-                    "pairings, < <= > >= (must raise), == != (False/True)} x {same, different} systems",
-                    [Block([PAIRS, OPK_MISMATCH, SYSP], b_mis)]))
+                    "pairings, < <= > >= (must raise), == != (False/True)} x {same, different} systems x "
+                    "{unrelated magnitudes, equal stored numbers, equal SI numbers}",
+                    [Block([PAIRS, OPK_MISMATCH, SYSP, [0, 1, 2]], b_mis)]))
 
     def b_len(dim, op, order, ss):
         kL, kR = ("ua", "ua3") if order == 0 else ("ua3", "ua")
